@@ -16,10 +16,10 @@ def x_cfg(scn, views, memhost, branch):
 def raw_cmd(vec, place, off):
     return "Y %s %d %d %d %s %d %s %d %s" % (vec["op"], vec["q"], vec["off"], vec["w"], hexs(vec["val"]), vec["base"], place, off, hexs(vec["pre"]))
 
-def raw_replay(v, ex, vectors, rnd, tag):
+def raw_replay(v, ex, vectors, rnd, tag, places=None):
     cmds, meta = [], []
     for vec in vectors:
-        for place, off in (("E", 0), ("S", rnd.randrange(16))):
+        for place, off in (places if places is not None else (("E", 0), ("S", rnd.randrange(16)))):
             cmds.append(raw_cmd(vec, place, off)); meta.append(vec)
     outs = ex.run_robust(cmds)
     bad = 0
